@@ -87,6 +87,8 @@ def random_action(cl, rng, w, state):
             spec['x'] = rng.choice(['1', '2'])
         if kk == 'ver':
             spec['v'] = rng.choice([0, 1, 2, 2, 5, 11, 11, 12])
+        if kk == 'op' and state.get('sizes'):
+            spec['size'] = rng.choice(state['sizes'])
         if kk == 'op' and state.get('pads'):
             spec['pad'] = rng.choice(state['pads'])
         if rng.random() < state.get('nocb', 0.0):
@@ -460,7 +462,7 @@ def reelect_phase(cl, rng, trace, state, variant=None):
     # the cut-off leader keeps accepting commands; its minority acknowledges them
     for k in range(rng.randint(1, 3)):
         state['ncmd'] += 1
-        do(('Submit', L, 'c%d' % state['ncmd'], {'kind': 'op'}))
+        do(('Submit', L, 'c%d' % state['ncmd'], dict({'kind': 'op'}, **({'size': rng.choice(state['sizes'])} if state.get('sizes') else {}))))
         do(('Tick', L, 'z'))
         deliver_within(set(minority), rounds=3)
     for m in minority:
